@@ -5,12 +5,16 @@ pub const SINGLE: &[&str] = &[
     "a", "b", "x", "i", "f", "n", "0", "1", "7", "9", "_", " ", " ", "\n", "\n", "\t", "\r", "\r\n", "'",
     "\\", "/", "(", ")", "[", "]", "{", "}", "=", "#", "<", ">", ":", ",", ";", "+", "-", "*", "é",
     "Ł", "€", "😀", "A", "F", "G", "g", "\"", "@", "$", ".", "X", "x", "\u{feff}", "ö", "O", "o",
+    // characters that are white space for Unicode (`char::is_whitespace`, `str::trim`) but not for SPL
+    "\u{a0}", "\u{c}", "\u{b}", "\u{85}", "\u{2028}", "\u{3000}",
 ];
 
 pub const FRAGMENTS: &[&str] = &[
     "if", "else", "while", "array", "of", "proc", "ref", "type", "var", "0x", "//", "'\\n'", ":=",
     "<=", ">=", "'a'", "'é'", "0x1F", "4294967295", "4294967296", "0xFFFFFFFF", "0x100000000",
     "main", "int", "// c\n", "'😀'", "''", "'\\", "0xg", "007", "x1", "_y", "0X1F", "0Xa", "0X", "0o7", "grö", "whileé",
+    "00000000001", "04294967295", "000000000000", "04294967296", "0x000000001", "0x0FFFFFFFF", "ref_x", "if_", "of_1",
+    "// a\rb\n", "// c\r\r\n", "// proc p",
 ];
 
 pub fn soup(rng: &mut Rng, max_items: usize) -> String {
@@ -61,6 +65,7 @@ pub fn lexeme(rng: &mut Rng) -> String {
             0 => "0".to_string(),
             1 => "4294967295".to_string(),
             2 => format!("{:03}", rng.below(1000)),
+            3 if rng.chance(1, 3) => format!("{:011}", rng.next() % 5_000_000_000u64),
             _ => format!("{}", rng.next() % 100000),
         },
         8 => match rng.below(4) {
@@ -74,7 +79,7 @@ pub fn lexeme(rng: &mut Rng) -> String {
             rng.pick(&cs).to_string()
         }
         10 => {
-            let bodies = ["", " c", " é€😀 ", "// x", " if else", "\t'a", " 0x"];
+            let bodies = ["", " c", " é€😀 ", "// x", " if else", "\t'a", " 0x", " a\rb", " c\r\r", " proc p(", "\u{a0}x"];
             format!("//{}\n", rng.pick(&bodies))
         }
         _ => ident(rng),
@@ -82,7 +87,7 @@ pub fn lexeme(rng: &mut Rng) -> String {
 }
 
 pub fn separator(rng: &mut Rng) -> String {
-    let seps = ["", "", " ", " ", "\n", "\t", "\r\n", "  ", " \n ", "\r"];
+    let seps = ["", "", " ", " ", "\n", "\t", "\r\n", "  ", " \n ", "\r", "", " ", "\n", "\u{a0}", "\u{c}", "\u{3000}"];
     rng.pick(&seps).to_string()
 }
 
